@@ -385,14 +385,20 @@ pub fn c08_check(tier: Tier) -> Outcome {
 pub fn c01_check(tier: Tier) -> Outcome {
     let mut out = Outcome::new("C01", "model_checking");
     finish(&mut out, "modea", c01_cells(tier), tier);
-    out.rule = modea_rule("slice monitors S1/S2 on every emitted DATA");
+    finish(&mut out, "modeb", crate::e1b_checks::c01_b_cells(tier), tier);
+    finish(&mut out, "e2_xfer", crate::e2_xfer::cells(false, tier == Tier::Thorough), tier);
+    out.rule = format!("{} PLUS E1 Mode B: the real sending Worker + reference client (4 conformant variants) + faulty network, every placement of up to F faults (drop, duplicate, delay-past-timeout, swap) in either direction and both timer orders, oracle = in-order reassembly at the client is byte-identical when it completes and a prefix otherwise; PLUS E2: downloads from the real Server over real UDP sockets (both port modes, block sizes up to 65464, fault-free and with duplicate / stale ACKs from the client).", modea_rule("slice monitors S1/S2 on every emitted DATA: block k carries exactly file[(k-1)*blk, k*blk), nothing beyond the final block, numbering consecutive mod 65536; grids: len x blksize {8,9,512,65464} x windowsize {1..4,8,64,(65534,65535)} x handshake, one > 65535-block file"));
+    out.assumptions = vec!["contents are position-coded (the subject never branches on payload bytes)".into()];
     out
 }
 
 pub fn c02_check(tier: Tier) -> Outcome {
     let mut out = Outcome::new("C02", "model_checking");
     finish(&mut out, "modea", c02_cells(tier), tier);
-    out.rule = modea_rule("upload monitors U1-U3; the file is read back inside Socket::send at the instant of every ACK emission");
+    finish(&mut out, "modeb", crate::e1b_checks::c02_b_cells(tier), tier);
+    finish(&mut out, "e2_xfer", crate::e2_xfer::cells(true, tier == Tier::Thorough), tier);
+    out.rule = format!("{} PLUS E1 Mode B: the real receiving Worker + reference sender + faulty network, every placement of up to F faults; PLUS E2: uploads to the real Server over real UDP sockets (both port modes, fault-free, every DATA duplicated, windows sent in reverse order).", modea_rule("upload monitors U1 (no ACK for a block not received in sequence), U2 (the file is read back inside Socket::send at the instant of every ACK emission and must hold exactly blocks 1..j for a j >= k), U3 (after the final ACK the file is the in-order blocks once each)"));
+    out.assumptions = vec!["the file snapshot at ACK emission is (length, hash) of the whole file; for the > 65535-block run (length, hash of the last 256 bytes)".into()];
     out
 }
 
